@@ -145,6 +145,13 @@ func checkC01(c *Ctx) {
 					tokenLoad = call
 				}
 			})
+			// the load that actually feeds the Update must be that locked one
+			for _, ld := range m.OriginLoads(args[2]) {
+				h := la.MustBefore(ld)
+				if !(h[m.implMuR()] || h[m.implMuW()]) {
+					revLoad = nil
+				}
+			}
 			c.check(revLoad != nil && claimLoad != nil, "R3", "revision and claim read in one critical section", op.Call,
 				"revision load under the election mutex: %v; claim load under the same mutex: %v (a revision read apart from the claim may be an observed one: C01-R4)", revLoad != nil, claimLoad != nil)
 			// the goroutine issuing the Update is spawned under that claim load == true
@@ -290,7 +297,7 @@ func (m *Model) isOwnershipCheck(f *ssa.Function) bool {
 	}
 	okAll := true
 	n := 0
-	for _, b := range f.Blocks {
+	for _, b := range liveBlocks(f) {
 		ret, ok := b.Instrs[len(b.Instrs)-1].(*ssa.Return)
 		if !ok || b == f.Recover {
 			continue
@@ -317,6 +324,18 @@ func (m *Model) isOwnershipCheck(f *ssa.Function) bool {
 		})
 		if !(getOK && decOK && idOK && tokOK) {
 			okAll = false
+		}
+		// remember conjuncts beyond those (reported by C09-R5: an owner must pass the verdict)
+		for _, l := range lits {
+			s := l.S.String()
+			switch {
+			case strings.Contains(s, "nil") && (strings.Contains(s, "KeyValue.Get(") || strings.Contains(s, "encoding/json.Unmarshal(")) && !strings.Contains(s, "Entry.Revision("):
+			case strings.Contains(s, ".ID") && strings.Contains(s, m.cfgPath("InstanceID")):
+			case strings.Contains(s, ".Token") && strings.Contains(s, "param:"):
+			case strings.Contains(s, `"" == param:`) || strings.Contains(s, `param:token == ""`):
+			default:
+				m.ownershipExtras[f] = append(m.ownershipExtras[f], l.String())
+			}
 		}
 	}
 	return okAll && n > 0
